@@ -81,15 +81,23 @@ def interpret(facts, hist):
             else:
                 grant = o['grant'] or not facts.deny
             idx = facts.grant if grant else facts.deny[o['e'] % len(facts.deny)]
+            react = None
+            if o.get('react') and facts.outs:
+                # the component raises an out-event while it handles the claim (before it replies):
+                # it belongs to whoever holds the claim at that moment
+                react = {'ev': facts.outs[o['e'] % len(facts.outs)], 'q': list(q), 'stale': stale}
+                script.append(f'react {nm}.{facts.claim["name"]} {nm} {react["ev"]["name"]}')
             script += [f'force {nm}.{facts.claim["name"]} {idx}',
                        f'mccall {c} {nm} {facts.claim["name"]}', 'idle']
+            if react:
+                script.append('unreact')
             if grant:
                 if c in q:
                     q.remove(c)
                 q.append(c)
                 stale = False  # a fresh grant: the most recent grantee is the holder
             steps.append({'i': i, 'kind': 'in', 'client': c, 'ev': facts.claim, 'forced': idx,
-                          'q': list(q)})
+                          'q': list(q), 'react': react})
         elif o['op'] == 'release':
             react = None
             if o.get('react') and facts.outs:
@@ -213,9 +221,9 @@ def judge_out(nm, what, ev, q, stale, hs, call):
                        'out-event-args')
 
 
-def run_history(pr, exe, facts, hist):
+def run_history(pr, exe, facts, hist, timeout=40):
     script, steps = interpret(facts, hist)
-    rc, trace, err = pr.run_driver(exe, script, timeout=120)
+    rc, trace, err = pr.run_driver(exe, script, timeout=timeout)
     judge(facts, hist, steps, trace, rc, err)
     return steps
 
@@ -223,14 +231,16 @@ def run_history(pr, exe, facts, hist):
 def minimise(pr, exe, facts, hist, sig):
     ops = list(hist['ops'])
     changed = True
-    budget = 300
+    # a hanging history costs its whole time-out per trial: few trials, short time-out
+    hang = 'timeout' in sig
+    budget = 16 if hang else 300
     while changed and len(ops) > 1 and budget > 0:
         changed = False
         for i in range(len(ops)):
             trial = dict(hist, ops=ops[:i] + ops[i + 1:])
             budget -= 1
             try:
-                run_history(pr, exe, facts, trial)
+                run_history(pr, exe, facts, trial, timeout=10 if hang else 40)
             except Fail as f:
                 if f.sig == sig:
                     ops = trial['ops']
